@@ -161,6 +161,7 @@ func c20(ctx *Ctx) {
 	for si := 0; si < scripts; si++ {
 		c20script(ctx, r.Fork(), si)
 	}
+	c20e2e(ctx)
 }
 
 // c20script drives the real collectors with distinctive client addresses and scans
